@@ -761,6 +761,11 @@ func (i *instance) addCandidatePrefixes(c *ECChain) bool {
 	for l := c.Len() - 1; l > 0 && !addedAny; l-- {
 		addedAny = i.addCandidate(c.Prefix(l))
 	}
+	// Every shorter prefix is backed by the same quorum: all of them are candidates,
+	// not only the first one that was newly added.
+	for l := c.Len() - 2; l > 0; l-- {
+		addedAny = i.addCandidate(c.Prefix(l)) || addedAny
+	}
 	return addedAny
 }
 
